@@ -6,7 +6,7 @@ K1 = "K1-cipher-mode-byte-unauthenticated"
 
 
 def run(ck):
-    ck.prove(["Properties_C05", "Properties_Src2", "SrcRun5"], THEOREMS + ["SRC_verify"])   # SrcRun5: the translated whole-file runs (a stale translation concerns this property)
+    ck.prove(["Properties_C05", "Properties_Src2", "Properties_SrcE2Ed", "SrcRun5"], THEOREMS + ["SRC_verify", "SRC_execute_decrypt_rejects_what_verify_rejects"])   # SrcRun5: the translated whole-file runs (a stale translation concerns this property)
     exe = small_driver(ck)
     env = small_env(ck)
     big = ck.tier == "thorough"
